@@ -65,7 +65,30 @@ def cases_of(desc):
     return [(i, ex[i]) for i in range(desc["start"], min(len(ex), desc["start"] + desc["n"]))]
 
 
+def _sc(n):
+    return tuple(f"sc.{x}" for x in n) if isinstance(n, tuple) else f"sc.{n}"
+
+
+def _unsc(n):
+    return tuple(x[3:] if x.startswith("sc.") else x for x in n) if isinstance(n, tuple) else (n[3:] if isinstance(n, str) and n.startswith("sc.") else n)
+
+
 def _call(form, pipeline, out, K):
+    if getattr(pipeline, "_verif_scoped", False):
+        # every name lives in the scope "sc"; keywords are given in the NESTED form {"sc": {name: value}}
+        so, kw = _sc(out), ({"sc": dict(K)} if K else {})
+        if form == "call":
+            return pipeline(so, **kw)
+        if form == "run":
+            return pipeline.run(so, kwargs=kw)
+        if form == "func":
+            return pipeline.func(so)(**kw)
+        if form == "func-dict":
+            return pipeline.func(so).call_with_dict(kw)
+        if form == "full":
+            r = pipeline.run(so, full_output=True, kwargs=kw)
+            return {_unsc(k): x for k, x in r.items()}
+        raise AssertionError(form)
     if form == "call":
         return pipeline(out, **K)
     if form == "run":
@@ -205,6 +228,52 @@ def keyword_sets(case, out, rng):
         yield "surplus-unrelated-output", {**full, o2: "q"}
 
 
+class _MyList(list):
+    def total(self):
+        return sum(self)
+
+
+def typed_values(v):
+    """Argument values (and upstream results) that are instances of container SUBCLASSES reach the functions as they are."""
+    import collections
+
+    from pipefunc import PipeFunc, Pipeline
+
+    Point = collections.namedtuple("Point", "x y")  # noqa: PYI024
+
+    def f(a):
+        return a
+
+    def g(b, c):
+        return (type(b).__name__, type(c).__name__, repr(b), repr(c))
+
+    dd = collections.defaultdict(list)
+    dd["k"].append(1)
+    vals = [Point(1, 2), collections.Counter(a=2, b=1), collections.OrderedDict(z=1, a=2), dd, _MyList([1, 2, 3]),
+            collections.deque([1, 2], maxlen=5), [Point(0, 1), Point(2, 3)], {"p": Point(4, 5)}, (collections.Counter(x=1),)]
+    try:
+        with quiet():
+            p = Pipeline([PipeFunc(f, "b"), PipeFunc(g, "d")])
+    except Exception as e:  # noqa: BLE001
+        v.bad(exc_sig(e, "typed-values:construct"), exc_msg(e))
+        return
+    for n, a in enumerate(vals):
+        c = vals[(n + 3) % len(vals)]
+        want = g(f(a), c)
+        for form, call in (("call", lambda: p("d", a=a, c=c)), ("run", lambda: p.run("d", kwargs={"a": a, "c": c})),
+                           ("func", lambda: p.func("d")(a=a, c=c)), ("intermediate", lambda: p("d", b=a, c=c)),
+                           ("full", lambda: p.run("d", full_output=True, kwargs={"a": a, "c": c})["d"])):
+            v.count("typed_value_calls")
+            try:
+                with quiet():
+                    got = call()
+            except Exception as e:  # noqa: BLE001
+                v.bad(exc_sig(e, f"typed-values:raised/{form}"), f"call with a {type(a).__name__} / {type(c).__name__} argument raised {exc_msg(e)}")
+                continue
+            if got != want:
+                v.bad(f"typed-values:argument-type-changed/{form}", f"functions saw {got[:2]}, the arguments were {want[:2]}: {got!r:.200} vs {want!r:.200}")
+
+
 def run_one(v, idx, case, scratch, rng):
     log = probes.new_log(scratch)
     try:
@@ -230,6 +299,11 @@ def run_one(v, idx, case, scratch, rng):
                 v.count("cases_with_mutated_sibling_pipeline")
             else:
                 pipeline = daggen.build_pipeline(case, log=log, explicit_defaults=(idx % 4 == 1))
+            if idx % 5 == 4 and not any(f.get("picker") for f in case["funcs"]):  # (a dict-returning probe's picker knows the original names only)
+                # the whole pipeline in one scope, called with nested keyword dicts (a scope shared by all functions)
+                pipeline.update_scope("sc", "*", "*")
+                pipeline._verif_scoped = True
+                v.count("cases_called_through_a_nested_scope_dict")
     except Exception as e:  # noqa: BLE001
         v.bad(exc_sig(e, "refused-construct"), f"valid DAG refused: {exc_msg(e)}", case=daggen.describe(case))
         return
@@ -240,7 +314,7 @@ def run_one(v, idx, case, scratch, rng):
             forms = ["call", "run", "full"]
             if ctx in ("roots", "defaults-omitted"):
                 forms += ["func", "func-dict"]
-            if ctx == "roots":
+            if ctx == "roots" and not getattr(pipeline, "_verif_scoped", False):
                 # positional call forms take every root argument of the output, in the order the wrapper itself reports
                 try:
                     ra = set(pipeline.func(out).root_args)
@@ -253,11 +327,14 @@ def run_one(v, idx, case, scratch, rng):
         # precedence probe: every parameter of the producing function supplied as keyword while bound/default/upstream
         # alternatives exist is covered by the keyword sets above (intermediates + defaults + bound in the generator)
     # arg_combinations
+    scoped = getattr(pipeline, "_verif_scoped", False)
     for f in case["funcs"]:
         out = f["outs"][0]
         try:
             with quiet():
-                combos = sorted(pipeline.arg_combinations(out))
+                combos = sorted(pipeline.arg_combinations(_sc(out) if scoped else out))
+                if scoped:
+                    combos = sorted(tuple(sorted(_unsc(tuple(c)))) for c in combos)
         except Exception as e:  # noqa: BLE001
             v.bad(exc_sig(e, "arg_combinations"), f"arg_combinations raised: {exc_msg(e)}", case=daggen.describe(case))
             continue
@@ -276,7 +353,7 @@ def run_one(v, idx, case, scratch, rng):
             probes.log_clear(log)
             try:
                 with quiet():
-                    got = pipeline(out, **K)
+                    got = _call("call", pipeline, out, K)
             except Exception as e:  # noqa: BLE001
                 sib = [s for s in surplus if (p := daggen.producer(case, s)) is not None and len(p["outs"]) > 1
                        and any(o in exp["used"] for o in p["outs"] if o != s)]
@@ -316,6 +393,8 @@ def run_one(v, idx, case, scratch, rng):
 
 def run_case(desc):
     v = V()
+    if desc.get("start", 1) == 0:
+        typed_values(v)
     keys = []
     sample = None
     with tmpdir("c02-") as scratch:
